@@ -255,3 +255,100 @@ func TestOpenShardIsExpired(t *testing.T) {
 		}
 	}))
 }
+
+// ---------------------------------------------------------------- RetentionPolicyInfo.ExpiredShardGroups(t): explicit clock, exact boundary
+
+type pureCase struct {
+	Kind    string  `json:"kind"` // "pure"
+	DurNs   int64   `json:"duration_ns"`
+	SgDurNs int64   `json:"shard_group_duration_ns"`
+	EndsNs  []int64 `json:"group_ends_ns"` // group end times (unix ns)
+	Deleted []bool  `json:"deleted"`       // group already marked deleted
+	NowNs   int64   `json:"now_ns"`
+}
+
+func runPureCase(pc pureCase) (expired, kept int, err error) {
+	rpi := &meta2.RetentionPolicyInfo{Name: rpName, Duration: time.Duration(pc.DurNs), ShardGroupDuration: time.Duration(pc.SgDurNs)}
+	for i, e := range pc.EndsNs {
+		g := meta2.ShardGroupInfo{ID: uint64(i + 1), StartTime: time.Unix(0, e-pc.SgDurNs).UTC(), EndTime: time.Unix(0, e).UTC()}
+		if pc.Deleted[i] {
+			g.DeletedAt = time.Unix(0, pc.NowNs-1).UTC()
+		}
+		rpi.ShardGroups = append(rpi.ShardGroups, g)
+	}
+	now := time.Unix(0, pc.NowNs).UTC()
+	got := map[uint64]bool{}
+	for _, g := range rpi.ExpiredShardGroups(now) {
+		got[g.ID] = true
+	}
+	for i, e := range pc.EndsNs {
+		want := pc.DurNs != 0 && !pc.Deleted[i] && e+pc.DurNs < pc.NowNs // ended MORE than duration ago
+		if want {
+			expired++
+		} else {
+			kept++
+		}
+		if got[uint64(i+1)] != want {
+			return expired, kept, viol("ExpiredShardGroups(now): group ending at now%+dns with duration %dns (end+duration = now%+dns, deleted=%v): selected=%v, want %v",
+				e-pc.NowNs, pc.DurNs, e+pc.DurNs-pc.NowNs, pc.Deleted[i], got[uint64(i+1)], want)
+		}
+	}
+	return expired, kept, nil
+}
+
+func TestExpiredShardGroupsPure(t *testing.T) {
+	rapid.Check(t, ev.Prop(prop, "expired_groups_pure", func(t *rapid.T, c *ev.Case) {
+		pc := pureCase{Kind: "pure"}
+		pc.NowNs = rapid.Int64Range(1_600_000_000_000_000_000, 1_900_000_000_000_000_000).Draw(t, "now")
+		pc.SgDurNs = int64(rapid.SampledFrom([]time.Duration{time.Hour, 24 * time.Hour, 168 * time.Hour}).Draw(t, "sg"))
+		if rapid.IntRange(0, 5).Draw(t, "inf") == 0 {
+			pc.DurNs = 0
+		} else {
+			pc.DurNs = rapid.Int64Range(int64(time.Hour), int64(400*24*time.Hour)).Draw(t, "dur")
+		}
+		n := rapid.IntRange(1, 6).Draw(t, "n")
+		boundary := false
+		for i := 0; i < n; i++ {
+			var delta int64 // now - (end+dur)
+			switch rapid.IntRange(0, 6).Draw(t, "delta_kind") {
+			case 0:
+				delta = 0
+				boundary = true
+			case 1:
+				delta = 1
+				boundary = true
+			case 2:
+				delta = -1
+				boundary = true
+			case 3:
+				delta = int64(2 * time.Second)
+			case 4:
+				delta = -int64(2 * time.Second)
+			default:
+				delta = rapid.Int64Range(-int64(30*24*time.Hour), int64(30*24*time.Hour)).Draw(t, "delta")
+			}
+			pc.EndsNs = append(pc.EndsNs, pc.NowNs-pc.DurNs-delta)
+			pc.Deleted = append(pc.Deleted, rapid.IntRange(0, 5).Draw(t, "deleted") == 0)
+		}
+		c.Sample(pc)
+		if pc.DurNs == 0 {
+			c.Class("INF")
+		}
+		if boundary {
+			c.Class("boundary+-1ns")
+		}
+		exp, kept, err := runPureCase(pc)
+		if exp > 0 {
+			c.Class("some-expired")
+		}
+		if kept > 0 {
+			c.Class("some-kept")
+		}
+		if boundary && pc.DurNs != 0 {
+			c.Nontrivial(pc)
+		}
+		if err != nil {
+			c.Failf(t, prop, pc, "%s", err.Error())
+		}
+	}))
+}
